@@ -31,7 +31,8 @@ Definition spec_bits (s : state) (o : op) (r : Z) (s' : state) : Z :=
   let b (i : Z) (ok : bool) := if ok then 0%Z else (2 ^ i)%Z in
   (b 0 (single_driver_b s') + b 1 (unique_children_b s') + b 2 (unique_wires_b s')
    + b 3 (children_stay_b s s') + b 4 (drivers_stay_b s s') + b 5 (wires_stay_b s o s')
-   + b 6 (match conflict_of s o with Some _ => Z.eqb r 1 | None => true end))%Z.
+   + b 6 (match conflict_of s o with Some _ => Z.eqb r 1 | None => true end)
+   + b 7 (sinks_exact_b s'))%Z.
 
 (* failing steps of a recorded real run: (index, failing clauses, was the subject wire registered before the call) *)
 Fixpoint spec_scan (s : state) (ops : list op) (rec : list (Z * dumpT)) (i : Z) : list (Z * Z * bool) :=
@@ -50,5 +51,7 @@ Definition stray_b (s : state) (h : nat) : bool :=
   existsb (fun o => anc_b (nobj s) s h o &&
                     existsb (fun q => is_some (wsource s (pwire s q)) && in_bad s q) (oin s o))
           (seq 0 (nobj s)).
+(* single-fault variant evaluated on the Coq side: the source of wire w removed *)
+Definition clear_source (s : state) (w : nat) : state := set_wsource s (upd (wsource s) w None).
 Definition integrity3 (s : state) (h : nat) : Z * bool * bool :=
   ((match checkIntegrity s h with IOk => 0 | IRaise => 1 | IFuel => 2 end)%Z, undriven_port_b s h, stray_b s h).
